@@ -13,7 +13,8 @@ Conventions
   * `while` loops carry a fuel argument. `flood` (the inner loop of `decompose`) gets
     `len(nodes)`, the layering loop of `enrich` gets `len(nodes)`; Lemmas/C16Flood.lean and
     Lemmas/C16Layers.lean prove that this fuel is never exhausted before the loop condition
-    turns false when the job is a DAG (`flood_fuel_indep`, `layersLoop_fuel_indep`). On a cyclic
+    turns false when the job is a DAG (`Aux.flood_fuel_indep`, `Aux.layersLoop_spec`, summarised by
+    `c16_fuel`: any larger fuel gives the same `decomposeF` / `enrichF`). On a cyclic
     job the real `enrich` does not terminate; the model then stops when the fuel is used up.
   * `paths` (internal to the real `enrich`) is kept as a ghost field of `Component`; the harness
     observes the real one by wrapping `graph.nearest_common_descendant`.
